@@ -283,6 +283,19 @@ func (c *check) Init(tier string, seed int64) engine.Space {
 			{name: "tables of <=4 cells, <=1 span symbol x width x layout x 2 option deviations", structs: structSet(small, 1), full: core, devs: levels(otherDims, 2, 2)},
 			{name: "two column-spanning cells (2x2, 2x3, 3x2) x width x layout x spacing x content x cell width (ties between width guesses)", structs: twoColspans([][2]int{{2, 2}, {2, 3}, {3, 2}}, false), full: tieT},
 			{name: "tables of <=6 cells, exactly 2 span symbols x width x layout x 1 deviation of content / cell width", structs: onlyLevel(structSet(mid, 2), 2), full: core, devs: levels([]int{dContent, dCellW}, 1, 1)},
+			{name: "split over pages of one line: tables of <=6 cells with <=2 span symbols, 3x3, 4x1, 4x2 with <=1, x page geometry x width x layout x spacing{0,2px 4px}", structs: append(structSet(mid, 2), structSet([][2]int{{3, 3}, {4, 1}, {4, 2}}, 1)...), full: splitFull},
+			{name: "split over pages of two lines: 3x1, 3x2, 4x1 with <=2 span symbols, 3x3, 4x2 with <=1, x page geometry x width x layout x spacing{0,2px 4px}", structs: append(structSet([][2]int{{3, 1}, {3, 2}, {4, 1}}, 2), structSet([][2]int{{3, 3}, {4, 2}}, 1)...),
+				full: []fullDim{{dPageH, []uint8{2}}, allGeom, widths, layouts, spacings}},
+			{name: "split over pages of one or two lines: 2x2, 2x3, 3x1, 3x2, 4x1 with <=1 span symbol x page geometry{first margin, first wider} x width{auto,100%} x layout x 1 option deviation", structs: structSet([][2]int{{2, 2}, {2, 3}, {3, 1}, {3, 2}, {4, 1}}, 1),
+				full: []fullDim{{dPageH, []uint8{1, 2}}, {dPageGeom, []uint8{1, 3}}, {dWidth, []uint8{0, 3}}, layouts}, devs: levels(append([]int{dSpacing, dVAlign}, splitDevDims...), 1, 1)},
+			{name: "split over pages of one or two lines, first page with a margin: 8 structures x width{auto,100%} x 2 option deviations", structs: append(append([]structure(nil), pairStructs...), structure{3, 1, []uint8{0, 2, 0}}, structure{3, 2, []uint8{2, 0, 0, 0, 0, 0}}, structure{3, 2, []uint8{0, 0, 0, 2, 0, 0}}),
+				full: splitDevFull, devs: levels(append([]int{dSpacing}, splitDevDims...), 2, 2)},
+			{name: "heights: tables of >=2 rows with a cell spanning rows (<=6 cells, 4x1, 4x2 with <=2 row-spanning symbols, 3x3 with 1) x row height x tall content x spacing{0,2px 4px} x vertical-align", structs: withRowSpan(append(structMenu([][2]int{{2, 1}, {2, 2}, {3, 1}, {2, 3}, {3, 2}, {4, 1}, {4, 2}}, 2, rowSpans), structMenu([][2]int{{3, 3}}, 1, rowSpans)...)),
+				full: []fullDim{{dRowH, []uint8{0, 1, 2, 3, 4}}, {dContent, []uint8{0, 8, 9}}, spacings, {dVAlign, []uint8{0, 1, 2, 3}}}},
+			{name: "heights: tables with one cell spanning rows x cell height x vertical-align x tall content x row height{auto,all 15px}", structs: withRowSpan(structMenu([][2]int{{2, 1}, {2, 2}, {3, 1}, {2, 3}, {3, 2}, {4, 1}, {4, 2}}, 1, rowSpans)),
+				full: []fullDim{{dCellH, []uint8{1, 2}}, {dVAlign, []uint8{0, 1, 2, 3}}, {dContent, []uint8{0, 8, 9}}, {dRowH, []uint8{0, 3}}}},
+			{name: "heights: 2x2, 2x3, 3x1, 3x2 with <=2 span symbols of any kind, one spanning rows x row height{auto,last 5px,all 15px} x content{rot0,tall multi-row} x spacing{0,2px 4px}", structs: withRowSpan(structSet([][2]int{{2, 2}, {2, 3}, {3, 1}, {3, 2}}, 2)),
+				full: []fullDim{{dRowH, []uint8{0, 1, 3}}, {dContent, []uint8{0, 8}}, spacings}},
 		}
 	} else {
 		upto6 := [][2]int{{1, 1}, {1, 2}, {2, 1}, {1, 3}, {3, 1}, {2, 2}, {2, 3}, {3, 2}}
